@@ -376,9 +376,19 @@ func init() {
 	ext("(*"+p+"WriteBatch).Flush", func(fr *frame, a []value) value {
 		b := bbatches[a[0].(*value)]
 		if !b.flushed {
+			// crash points: a harness may register a "badger-flush" hook that is called
+			// before and after a batch becomes durable (it may block forever = the
+			// process died there)
+			if f, ok := hookFns["badger-flush"]; ok && len(b.ops) > 0 {
+				call(fr.i, fr, 0, f, []value{"before"})
+			}
 			b.db.apply(b.ops)
 			b.flushed = true
+			nops := len(b.ops)
 			b.ops = nil
+			if f, ok := hookFns["badger-flush"]; ok && nops > 0 {
+				call(fr.i, fr, 0, f, []value{"after"})
+			}
 		}
 		return iface{}
 	})
